@@ -48,7 +48,7 @@ ANCHORS = [("deap/algorithms.py", []), ("deap/tools/support.py", ["HallOfFame", 
            ("deap/base.py", ["Toolbox", "Fitness"]), ("doc/tutorials/advanced/checkpoint.rst", [])]
 LEVEL = "partial"
 RULE = ("families (harness/props/c17_families.py): GA on lists, NSGA-II, SPEA2, NSGA-III with memory, GP with ephemerals, CMA-ES, (1+lambda)-CMA, "
-        "MO-CMA-ES, plus the four packaged loops of deap.algorithms for (a) and (c) (quick: det for all, crash for GA, NSGA-III with memory, GP, CMA-ES + one more chosen by the seed; thorough: everything for all 8 x 3 seeds); crash points: every "
+        "MO-CMA-ES (NSGA-II always with ngen=10, MU=16 and every crash point; variants of the three CMA strategies built from caller-owned shared cmatrix / centroid / parent / population objects for (a)), plus the four packaged loops of deap.algorithms for (a) and (c) (quick: det for all, crash for GA, NSGA-III with memory, GP, CMA-ES + one more chosen by the seed; thorough: everything for all 8 x 3 seeds); crash points: every "
         "generation 0..ngen; pickle protocols: two (quick) / all 0..5 (thorough); pools of 1,2,4,8 workers with "
         "random per-task delays; all 24 permutations of the 4-task map calls of the small variants. "
         "Non-trivial = every case (each is a complete run)")
@@ -140,6 +140,9 @@ def eval_det(d):
     st2, t2 = F.run(fam, seed, ngen)
     orc = compare("second run in the same process", dict((str(k), v) for k, v in t2.items()),
                   norm(F.fingerprint(st2)), rtrace, rfinal)
+    if orc is None and F.shared_inputs_fp() != F.SHARED_FP0:
+        orc = ("the run modified objects owned by the caller (cmatrix / centroid / parent / initial population "
+               "handed to the strategy constructor)")
     if orc is None:
         p = subprocess.run(CHILD + ["run", fam, str(seed), str(ngen)], stdout=subprocess.PIPE, stderr=subprocess.PIPE,
                            text=True, timeout=600, env=child_env(d.get("hs", 1)))
@@ -372,7 +375,8 @@ def generate(tier, rng, mult):
     seeds = [rng.randint(0, 10 ** 6) for _ in range(3 if thorough else 1)]
     ngen = 6 if thorough else 4
     fams = list(F.ORDER)
-    core = ["ga_list", "nsga3_mem", "gp_eph", "cma_es"]      # selector memory, ephemerals, strategy + array individuals
+    # crowding distances on the fitness, selector memory, ephemerals, strategy + array individuals
+    core = ["nsga2", "ga_list", "nsga3_mem", "gp_eph", "cma_es"]
     crash_fams = fams if thorough else core + rng.sample([f for f in fams if f not in core], 1)
     hs = rng.randint(1, 10 ** 6)
     # the algebra
@@ -395,19 +399,20 @@ def generate(tier, rng, mult):
                "drop": rng.random() < 0.4, "proto": rng.choice(PROTOCOLS)}
     # (a) determinism, every family
     for s in seeds + ([] if thorough else [rng.randint(0, 10 ** 6)]):
-        for f in fams + F.PACKAGED:
-            yield {"k": "det", "family": f, "seed": s, "ngen": ngen, "hs": hs}
+        for f in F.SHARED + fams + F.PACKAGED:
+            yield {"k": "det", "family": f, "seed": s, "ngen": F.ngen_for(f, ngen), "hs": hs}
     # (b) every crash point
     for s in seeds:
-        for f in crash_fams:
-            for g in range(0, ngen + 1):
+        for f in crash_fams + (["cma_es_shared"] if thorough else []):
+            ng = F.ngen_for(f, ngen)
+            for g in range(0, ng + 1):
                 protos = PROTOCOLS if thorough else sorted(set([rng.choice([0, 1, 2]), rng.choice([3, 4, 5])]))
-                yield {"k": "crash", "family": f, "seed": s, "ngen": ngen, "g": g, "protos": protos, "hs": hs + g}
+                yield {"k": "crash", "family": f, "seed": s, "ngen": ng, "g": g, "protos": protos, "hs": hs + g}
     # (c) pools
     for s in seeds[:1]:
         for f in (fams if thorough else crash_fams) + F.PACKAGED:
             for w in (1, 2, 4, 8):
-                yield {"k": "pool", "family": f, "seed": s, "ngen": ngen, "w": w, "dseed": rng.randint(0, 10 ** 6),
+                yield {"k": "pool", "family": f, "seed": s, "ngen": F.ngen_for(f, ngen), "w": w, "dseed": rng.randint(0, 10 ** 6),
                        "start": "fork"}
         if thorough:
             for f in fams[:2]:
@@ -419,7 +424,8 @@ def generate(tier, rng, mult):
             for i in range(24):
                 yield {"k": "perm", "family": f + ":s", "seed": s, "ngen": 3, "mode": "lex:%d" % i}
             for mode in ("reverse", "rotate", "random"):
-                yield {"k": "perm", "family": f, "seed": s, "ngen": ngen, "mode": mode, "pseed": rng.randint(0, 999)}
+                yield {"k": "perm", "family": f, "seed": s, "ngen": F.ngen_for(f, ngen), "mode": mode,
+                       "pseed": rng.randint(0, 999)}
         for f in F.PACKAGED:
             for mode in ("reverse", "rotate", "random", "random"):
                 yield {"k": "perm", "family": f, "seed": s, "ngen": ngen, "mode": mode, "pseed": rng.randint(0, 999)}
@@ -427,7 +433,7 @@ def generate(tier, rng, mult):
         for s in seeds:
             for f in fams:
                 for j in range(10 * mult):
-                    yield {"k": "perm", "family": f, "seed": s, "ngen": ngen, "mode": "random",
+                    yield {"k": "perm", "family": f, "seed": s, "ngen": F.ngen_for(f, ngen), "mode": "random",
                            "pseed": rng.randint(0, 10 ** 6)}
 
 
